@@ -1184,6 +1184,12 @@ func (g *c08Run) deterministic() error {
 			{Kind: "CancelBid", S: C, Name: c08N1}, {Kind: "AcceptBid", S: A, Name: c08N1, T: B}, {Kind: "AcceptBid", S: A, Name: c08N1, T: B}, {Kind: "CancelBid", S: B, Name: c08N1},
 			{Kind: "Bid", S: C, Name: c08N1, Denom: "awei", Big: two63m1}, {Kind: "Bid", S: A, Name: c08N1, Denom: "awei", Big: two63}, {Kind: "AcceptBid", S: B, Name: c08N1, T: A}, {Kind: "CancelBid", S: C, Name: c08N1},
 			{Kind: "List", S: A, Name: c08N1, Denom: "awei", Big: two64p}, {Kind: "Buy", S: C, Name: c08N1}})
+	// bids on a name written with a blank inside (only the TLD of a bid's name is checked): its slot is its own, a
+	// second bid replaces and refunds the first, cancelling it hands back exactly what it holds, the blank-less
+	// neighbour is another slot
+	hs = append(hs, []c08Op{{Kind: "Bid", S: C, Name: "my name.jkl", Denom: "ujkl", Amt: 100}, {Kind: "Bid", S: C, Name: "my name.jkl", Denom: "ujkl", Amt: 250},
+		{Kind: "Bid", S: C, Name: "myname.jkl", Denom: "ujkl", Amt: 70}, {Kind: "Bid", S: B, Name: " my  name.jkl", Denom: "ujkl", Amt: 11}, {Kind: "CancelBid", S: C, Name: "my name.jkl"},
+		{Kind: "CancelBid", S: C, Name: "my name.jkl"}, {Kind: "CancelBid", S: C, Name: "myname.jkl"}, {Kind: "CancelBid", S: B, Name: " my  name.jkl"}, {Kind: "CancelBid", S: B, Name: "myname.jkl"}})
 	// a record of A's name whose label spells B's name: messages in the record form "harbor.quay.jkl" never reach harbor.jkl
 	hs = append(hs, []c08Op{reg(A, "quay.jkl"), reg(B, "harbor.jkl"), {Kind: "AddRecord", S: A, Name: "quay.jkl", Rec: "harbor", Val: c08AddrOf(A), Data: "rec"},
 		{Kind: "Update", S: A, Name: "harbor.quay.jkl", Data: "taken"}, {Kind: "Transfer", S: A, Name: "harbor.quay.jkl", T: C}, {Kind: "List", S: A, Name: "harbor.quay.jkl", Denom: "ujkl", Amt: 5},
@@ -1248,7 +1254,7 @@ func (g *c08Run) exhaustive() error {
 
 func (g *c08Run) random() error {
 	p := g.r.Rng
-	names := []string{c08N1, c08N1, c08N1, "fooxjkl", "Foo.jkl", c08N2, c08N2, "a.jkl", "x.y.jkl", "FOO.JKL", "jkl", "baribc"}
+	names := []string{c08N1, c08N1, c08N1, "fooxjkl", "Foo.jkl", c08N2, c08N2, "a.jkl", "x.y.jkl", "FOO.JKL", "jkl", "baribc", "f oo.jkl", "foo .jkl"}
 	nh := g.r.Scale(60, 1500)
 	for k := 0; k < nh; k++ {
 		if err := g.fresh(); err != nil {
